@@ -54,9 +54,10 @@ def run(names):
         tmp = tempfile.mkdtemp(prefix='pyvc-seed-')
         try:
             subprocess.run(['rsync', '-a', '--exclude', '.git', '--exclude', '__pycache__', '/repo/', tmp + '/'], check=True)
-            rc, out = sh(['git', 'apply', '--unsafe-paths', '--directory', tmp, os.path.join(d, 'patch.diff')], cwd='/')
+            pf = os.path.join(d, 'patch.rebased.diff') if os.path.exists(os.path.join(d, 'patch.rebased.diff')) else os.path.join(d, 'patch.diff')
+            rc, out = sh(['git', 'apply', '--unsafe-paths', '--directory', tmp, pf], cwd='/')
             if rc != 0:
-                rc, out = sh(['patch', '-p1', '-s', '-d', tmp, '-i', os.path.join(d, 'patch.diff')])
+                rc, out = sh(['patch', '-p1', '-s', '-d', tmp, '-i', pf])
             if rc != 0: print(os.path.basename(d), 'PATCH FAILED', out[-300:]); continue
             props = meta['property'] if isinstance(meta['property'], list) else [meta['property']]
             res = {}
